@@ -1,4 +1,5 @@
 mod cfg_engine;
+mod comp_deque;
 mod comp_sketch;
 mod engine;
 mod exec;
@@ -18,6 +19,9 @@ pub fn extra_engines(prop: &str, thorough: bool) -> Vec<sup::EnginePlan> {
     if prop == "C17" {
         v.push(sup::EnginePlan { engine: "cfg", workers: 16, cases_per_worker: if t { 6000 } else { 700 }, timeout_s: if t { 1500 } else { 400 } });
     }
+    if prop == "C08" {
+        v.push(sup::EnginePlan { engine: "deque", workers: 16, cases_per_worker: if t { 20000 } else { 2500 }, timeout_s: if t { 1500 } else { 400 } });
+    }
     if prop == "C14" || prop == "C08" {
         v.push(sup::EnginePlan { engine: "sketch", workers: 16, cases_per_worker: if t { 1500 } else { 150 }, timeout_s: if t { 1500 } else { 400 } });
     }
@@ -35,6 +39,7 @@ pub fn rule_for(prop: &str, engine: &str) -> String {
         }
         "sketch" => comp_sketch::RULE.to_string(),
         "cfg" => cfg_engine::RULE.to_string(),
+        "deque" => comp_deque::RULE.to_string(),
         _ => String::new(),
     }
 }
@@ -82,6 +87,7 @@ fn main() {
                 "seq" => engine::seq_worker(&wa),
                 "sketch" => comp_sketch::sketch_worker(&wa),
                 "cfg" => cfg_engine::cfg_worker(&wa),
+                "deque" => comp_deque::deque_worker(&wa),
                 other => panic!("unknown engine {other}"),
             };
             engine::write_result(&dir, idx, &res);
@@ -141,6 +147,7 @@ fn replay_found(found: &engine::Found, path: &str, quiet: bool) -> i32 {
         }
         "sketch" => report(comp_sketch::replay(found), found, path),
         "cfg" => report(cfg_engine::replay(found), found, path),
+        "deque" => report(comp_deque::replay(found), found, path),
         other => {
             eprintln!("unknown engine {other}");
             2
